@@ -135,6 +135,8 @@ def comprehension(models, eng, node, st, kind):
 def gen_view(models, eng, g, st):
     """SeqView of a single-for generator expression without conditions; element evaluated symbolically per index"""
     node = g.node
+    if len(node.generators) == 2 and not node.generators[0].ifs and not node.generators[1].ifs:
+        return gen_view2(models, eng, g, st)
     if len(node.generators) != 1 or node.generators[0].ifs:
         raise OutOfReach('generator expression shape: ' + ast.unparse(node))
     gen = node.generators[0]
@@ -145,6 +147,9 @@ def gen_view(models, eng, g, st):
         raise OutOfReach('generator source is not a single pure path')
     st1, src = res[0]
     sv = seq_view(models, eng, src, st1)
+    # facts learned while evaluating the iterable (type invariants of its operands) hold in the caller's state too
+    for c in st1.pc[len(st.pc):]:
+        st.assume(c)
     if sv is None:
         if isinstance(src, VIter) and src.what == 'gen':
             sv = gen_view(models, eng, src, st1)
@@ -185,6 +190,81 @@ def gen_view(models, eng, g, st):
     extra_facts = []
     fails = []
     v = SeqView(sv.n, at)
+    v.extra_facts = extra_facts
+    v.fails = fails
+    return v
+
+
+def gen_view2(models, eng, g, st):
+    """(elt for a in OUTER for b in INNER) where INNER is a concrete list that does not depend on a: the flattened
+    sequence has len(OUTER) * len(INNER) elements; element q uses OUTER[q div m] and INNER[q mod m]"""
+    node = g.node
+    g1, g2 = node.generators
+    st0 = st.clone()
+    st0.env = dict(g.env)
+    r1 = eng.ev(g1.iter, st0)
+    if len(r1) != 1 or isinstance(r1[0][1], Raised):
+        raise OutOfReach('generator source is not a single pure path')
+    st1, src1 = r1[0]
+    for c in st1.pc[len(st.pc):]:
+        st.assume(c)
+    sv1 = seq_view(models, eng, src1, st1)
+    r2 = eng.ev(g2.iter, st1.clone())
+    if sv1 is None or len(r2) != 1 or isinstance(r2[0][1], Raised):
+        raise OutOfReach('nested generator shape: ' + ast.unparse(node))
+    it2 = iterate(models, eng, r2[0][1], r2[0][0])
+    if it2 is None or it2.what != 'concrete' or not it2.items:
+        raise OutOfReach('nested generator: inner iterable must be a non-empty concrete list: ' + ast.unparse(node))
+    inner = it2.items
+    m = len(inner)
+    fails = []
+    extra_facts = []
+
+    def elem(io, j, s2):
+        outs = eng.assign(g1.target, sv1.at(io), s2)
+        (s3, fl), = outs
+        (s4, fl2), = eng.assign(g2.target, inner[j], s3)
+        base = len(s4.pc)
+        rs = [(a, b) for a, b in eng.ev(node.elt, s4) if not a.infeasible()]
+        good = [(a, b) for a, b in rs if not isinstance(b, Raised)]
+        bad = [(a, b) for a, b in rs if isinstance(b, Raised)]
+        if len(good) != 1:
+            raise OutOfReach('generator element is not a single pure path: ' + ast.unparse(node.elt))
+        return good[0], bad, base
+
+    def at(q):
+        from . import values as _values
+        s2 = st1.clone()
+        s2.env = dict(g.env)
+        n_total = t.mul(sv1.n, I(m))
+        if q.op == 'int':
+            (gs, gv), bad, base = elem(I(q.args[0] // m), q.args[0] % m, s2)
+            return gv
+        s2.assume(t.and_(t.le(t.ZERO, q), t.lt(q, n_total)))
+        io = t.pyfloordiv(q, I(m))
+        s2.assume(t.and_(t.le(t.ZERO, io), t.lt(io, sv1.n)))
+        c0 = _values._counter[0]
+        vals = []
+        del fails[:]
+        del extra_facts[:]
+        for j in range(m):
+            sel = t.eq(t.pymod(q, I(m)), I(j))
+            (gs, gv), bad, base = elem(io, j, s2.clone())
+            iv, ok = eng.as_int(gv, gs)
+            if iv is None:
+                raise OutOfReach('nested generator element kind')
+            vals.append((sel, iv))
+            for a, b in bad:
+                fails.append((t.and_(sel, *a.pc[base:]), b.exc))
+            for c in gs.pc[base:]:
+                extra_facts.append(t.implies(sel, c))
+        if _values._counter[0] != c0:
+            raise OutOfReach('generator element introduces fresh symbols under a quantifier: ' + ast.unparse(node.elt))
+        res = vals[-1][1]
+        for sel, iv in reversed(vals[:-1]):
+            res = t.ite(sel, iv, res)
+        return VInt(res)
+    v = SeqView(t.mul(sv1.n, I(m)), at)
     v.extra_facts = extra_facts
     v.fails = fails
     return v
@@ -905,7 +985,22 @@ def havoc_object(eng, st, ref, name, writes=True):
         st.assume(t.ge(k, t.ZERO))
         st.put(ref, OIter(o.it, k))
     elif isinstance(o, OObject):
-        raise OutOfReach('object mutated in a loop with invariant')
+        # a helper object (RestreamedBytesIO): every data field may change; streams it holds are havocked as well
+        f = {}
+        for k, v in o.fields.items():
+            if isinstance(v, VRef):
+                if isinstance(st.get(v), OStream):
+                    so = st.get(v)
+                    if so.model == 'adv':
+                        before = so.extra['__short'].t
+                        havoc_object(eng, st, v, name + '_' + k, writes)
+                    else:
+                        havoc_object(eng, st, v, name + '_' + k, writes)
+                f[k] = v
+                continue
+            hv = havoc_value(eng, st, v, name + '_' + k) if isinstance(v, (VInt, VBool, VBytes, VDyn)) else None
+            f[k] = hv if hv is not None else v
+        st.put(ref, OObject(o.cls, f))
 
 
 t.SORT_SMT['VArr'] = '(Array Int Val)'
@@ -955,6 +1050,12 @@ def havoc_loop(models, eng, node, st, spec):
             o = st.get(v)
             if isinstance(o, (OStream, OIter)) or name in mutated:
                 havoc_object(eng, st, v, 'h_' + name, writes)
+    # attribute stores / method calls through self (helper objects whose fields are mutated in the loop)
+    selfv = st.env.get('self')
+    if isinstance(selfv, VRef) and isinstance(st.get(selfv), OObject):
+        touched = any(isinstance(n, ast.Attribute) and isinstance(n.value, ast.Name) and n.value.id == 'self' for b in body for n in ast.walk(b))
+        if touched:
+            havoc_object(eng, st, selfv, 'h_self', writes)
     # objects reachable only through self-like objects (streams in OObject fields) are handled by interface
     if models.interface is not None:
         models.interface.havoc_loop(eng, node, st, spec, names, mutated, calls_with)
